@@ -131,7 +131,7 @@ def run(ctx, rep):
         for hb in nexts:
             some = None
             for sb, ce in fc.ces.items():
-                if ce.expr[0] == "discr" and ce.expr[1][0] == "call" and ce.expr[1][3] == hb:
+                if ce.expr[0] == "discr" and ce.expr[1][0] == "call" and ce.expr[1][3] == hb and not ce.expr[1][4]:
                     some = ce.target_for(1)
             if some is None or hb not in m.reachable(some):
                 continue
